@@ -67,3 +67,16 @@ pub assume_specification [Time::now] () -> (r: Time);
 pub assume_specification [Duration::seconds] (s: i64) -> (r: Duration);
 pub assume_specification [Duration::hours] (s: i64) -> (r: Duration);
 ''')
+
+
+def string_eq(U):
+    """ASSUMED axiom: std String equality is equality of the character sequences (lets Option<&String> ==/!= be decided)"""
+    U.outside('use vstd::std_specs::cmp::*;')
+    U.add('''
+#[verifier::external_body]
+pub broadcast proof fn axiom_string_eq(a: String, b: String)
+    ensures #[trigger] a.eq_spec(&b) == (a@ == b@), <String as PartialEqSpec>::obeys_eq_spec() {}
+#[verifier::external_body]
+pub proof fn axiom_string_obeys() ensures <String as PartialEqSpec>::obeys_eq_spec() {}
+pub open spec fn ov(o: Option<String>) -> Option<Seq<char>> { match o { None => None, Some(s) => Some(s@) } }
+''')
